@@ -269,6 +269,56 @@ def spec_prim_view(target_kind):
     return spec
 
 
+# ---- msb / lsb / left / right of a type-qualified vector: which subscript they denote -------------------------------
+# documented: msb(count) / left(count) are the `count` MOST significant bits, lsb / right the least significant ones;
+# `rest=r` selects all but r bits; without argument the single edge bit.  The subscript itself is under contract above.
+def _tq_getitem_record(it, self, key):
+    return ("item", self, key)
+
+
+def edge_spec(high, mode):
+    def spec(sx, self, count=None, rest=None):
+        w = width(self.fields["_value"])
+        real = sx.real_args[0]
+        if mode == "both":
+            sx.require(sym.eq(count + rest, w))
+        if mode == "none":
+            want_hi = want_lo = None
+            want_index = (w - 1) if high else 0
+        else:
+            n = count if mode in ("count", "both") else w - rest
+            want_hi, want_lo = ((w - 1, w - n) if high else (n - 1, 0))
+
+        def holds(res):
+            if not (isinstance(res, tuple) and res[0] == "item" and res[1] is real):
+                return False
+            key = res[2]
+            if mode == "none":
+                return (not isinstance(key, slice)) and sym.eq(key, want_index)
+            return isinstance(key, slice) and key.step is None and sym.And(sym.eq(key.start, want_hi), sym.eq(key.stop, want_lo))
+
+        return C.Pred(holds, "the subscript of the documented bits")
+
+    return spec
+
+
+from pyvc.contracts import PyInt  # noqa: E402
+
+for fname, high in (("msb", True), ("left", True), ("lsb", False), ("right", False)):
+    con = contract(f"cohdl._core._type_qualifier:TypeQualifier.{fname}", PROPS)
+    for mode in ("count", "rest", "both", "none"):
+        kw = {}
+        if mode in ("count", "both"):
+            kw["count"] = PyInt("cnt", None, None, 0, 9)
+        if mode in ("rest", "both"):
+            kw["rest"] = PyInt("rst", None, None, 0, 9)
+        c = Case(mode, [view_shape(BitVector, "root")], edge_spec(high, mode), kwargs=kw)
+        c.native = False
+        c.may_reject = AssertionError
+        c.models = [(TypeQualifier.__dict__["__getitem__"], _tq_getitem_record)]
+        con.cases.append(c)
+
+
 for prop, K in (("unsigned", Unsigned), ("signed", Signed), ("bitvector", BitVector)):
     raw = cohdl.BitVector.__dict__[prop]
     I.register_model(raw.fget, C.model_from_spec(spec_prim_view(K), f"BitVector.{prop}"))
